@@ -51,6 +51,7 @@ type c18Event struct {
 
 type c18Sys struct {
 	withStore bool
+	shard     int
 	down      bool // the store fails every call: caching is memory-only, purge must still work
 	cfg       *config.PikeConfig
 	e         *env.Env
@@ -123,7 +124,8 @@ func (s *c18Sys) Apply(ev int) (string, string, string) {
 		}
 		return "restart", "", ""
 	case "purge":
-		if err := server.VerifPurge(e.Cache, "GET a.com "+e.Key); err != nil {
+		// through the real admin server (route table, middleware) over loopback HTTP
+		if err := env.AdminPurge(s.shard, e.Cache, "GET a.com "+e.Key); err != nil {
 			return "purge-error", "purge-error", err.Error()
 		}
 		for _, cn := range []string{"c1", "c2"} {
@@ -300,9 +302,12 @@ func init() {
 			depth = 6
 			pre = 3
 		}
-		c.runBFS("bfs-purge-nostore", newC18Sys(false), depth, nil)
-		c.runBFS("bfs-purge-store", newC18Sys(true), depth, nil)
+		ns, ws := newC18Sys(false), newC18Sys(true)
+		ns.shard, ws.shard = c.Shard, c.Shard
+		c.runBFS("bfs-purge-nostore", ns, depth, nil)
+		c.runBFS("bfs-purge-store", ws, depth, nil)
 		down := newC18Sys(true)
+		down.shard = c.Shard
 		down.down = true
 		c.runBFS("bfs-purge-store-down", down, depth, nil)
 		c.RunSched(c18Race(c, "purge-vs-fetch-nostore", false, vsched.Bounds{Preempt: pre, Tick: 0, Data: -1, Total: -1}))
